@@ -22,7 +22,12 @@ def _alarm(signum, frame):
 def with_wrapper(ebnf: str, start: str) -> str:
     """Add a rule that reports how much input `start` consumed: the rest of the text is captured by a pattern,
     which never skips whitespace."""
-    return ebnf + f"{WRAP} = v:{start} r:/(?s).*/ ;\n"
+    return ebnf + f"{wrap_name(start)} = v:{start} r:/(?s).*/ ;\n"
+
+
+def wrap_name(start: str) -> str:
+    # a token (upper-case) start rule must not have whitespace skipped on its behalf by the wrapper
+    return 'W__' if start.lstrip('_')[:1].isupper() else WRAP
 
 
 def clear_caches():
@@ -144,7 +149,7 @@ def run_model_case(case):
                     sem2 = make_semantics(case.get('sem'), case.get('actrule', '*'))
                     if sem2 is not None:
                         kw['semantics'] = sem2
-                    w = outcome(lambda: model.parse(text, start=WRAP, **kw))
+                    w = outcome(lambda: model.parse(text, start=wrap_name(start), **kw))
                     if w['k'] == 'ok' and isinstance(w['v'], dict) and 'r' in w['v']:
                         rest = w['v']['r']
                         w = {'k': 'ok', 'v': w['v'].get('v'),
